@@ -140,14 +140,14 @@ PROBES = {
         _rp("2001:db8::1", 80, 1, "c.org", pname="b"), _rp("10.1.2.3", 1500, 2, "ads.b.com", src="192.168.1.7", sport=53),
         _rp("8.8.8.8", 53, 2, "", pname=""), _rp("1.2.3.4", 2000, 1, "x.y.org", mac="02:00:00:00:00:02", dscp=16),
         _rp("2001:db9::1", 443, 2, "xa.com", src="2001:db8::99"), _rp("192.168.0.1", 81, 1, "ads.example", pname="sshd"),
-        _rp("::1", 80, 1, "zzz.test", src="::1"),
+        _rp("::1", 80, 1, "zzz.test", src="::1"), _rp("9.9.9.9", 443, 1, "123.b.com"),
     ],
     "dns_req": [{"domain": d, "qtype": t} for d, t in
-                [("a.com", 1), ("b.com", 28), ("x.b.com", 1), ("c.org", 5), ("ads.b.com", 28), ("x.y.org", 1), ("xa.com", 65), ("zzz.test", 16)]],
+                [("a.com", 1), ("b.com", 28), ("x.b.com", 1), ("c.org", 5), ("ads.b.com", 28), ("x.y.org", 1), ("xa.com", 65), ("zzz.test", 16), ("123.b.com", 1)]],
     "dns_resp": [{"domain": d, "qtype": t, "ips": ips, "upstream": u} for d, t, ips, u in
                  [("a.com", 1, ["1.2.3.4"], "alidns"), ("b.com", 28, ["2001:db8::1"], "googledns"), ("x.b.com", 1, ["5.5.5.5", "10.0.0.1"], "alidns"),
                   ("c.org", 5, [], "asis"), ("ads.b.com", 1, ["8.8.8.8"], "googledns"), ("x.y.org", 1, ["192.168.0.1"], "asis"),
-                  ("xa.com", 28, ["2001:db9::1"], "alidns"), ("zzz.test", 1, ["1.2.3.9", "8.8.4.4"], "googledns")]],
+                  ("xa.com", 28, ["2001:db9::1"], "alidns"), ("zzz.test", 1, ["1.2.3.9", "8.8.4.4"], "googledns"), ("123.b.com", 1, ["9.9.9.9"], "alidns")]],
 }
 
 
@@ -213,8 +213,11 @@ FALLBACKS = {"routing": ["direct", "proxy", "block"], "dns_req": ["asis", "alidn
 # ------------------------------------------------------------------------------------------------
 DOMS = ["a.com", "b.com", "x.b.com", "c.org", "ads.b.com", "y.org", "xa.com"]
 DOMAIN_VALUES = {
-    "": DOMS, "domain": DOMS, "suffix": DOMS + ["com", "org"], "full": DOMS, "keyword": ["ads", "a", "b.c", "x"], "contains": ["ads", "a", "x."],
-    "regex": ["^a\\.com$", ".*\\.org$", "^x\\."],
+    # values are case-sensitive text: upper-case letters in names, and in regular expressions where case is syntax
+    # (\\D \\W \\S \\B, classes [A-Z]) - an optimizer that folds case changes what they match
+    "": DOMS + ["B.com"], "domain": DOMS + ["X.b.com"], "suffix": DOMS + ["com", "org", "B.COM"], "full": DOMS + ["A.com", "C.ORG"],
+    "keyword": ["ads", "a", "b.c", "x"], "contains": ["ads", "a", "x."],
+    "regex": ["^a\\.com$", ".*\\.org$", "^x\\.", "^\\D+\\.b\\.com$", "^a\\Wcom$", "^\\S+\\.org$", "^[A-Z.]+$", "^x\\By", "^[^A-Z]+\\.com$"],
     "geosite": ["cn", "CN", "cn@ads", "CN@ADS", "category-ads", "category-ads@ads", "cn@cn"],
     "ext": ["other:mine", "other.dat:mine", "geosite:cn"],
 }
